@@ -55,7 +55,8 @@ type c20Item struct {
 	out    c20Outcome
 	err    error
 
-	inBatch bool // evaluated as part of a premature-update replay
+	inBatch  bool // evaluated as part of a premature-update replay
+	behindCA bool // sent right behind a channel announcement, not awaited
 }
 
 func (it *c20Item) describe() string {
@@ -88,6 +89,8 @@ type c20Run struct {
 
 	peers      map[int]*mockPeer
 	nFreshPeer int
+
+	before *c20Snap // snapshot taken before the current group
 
 	labels       map[string]int
 	inconclusive string
@@ -185,6 +188,7 @@ func (r *c20Run) exec(steps []c20Step) bool {
 
 func (r *c20Run) execGroup(steps []c20Step) bool {
 	before := r.ctx.graph.snap()
+	r.before = before
 
 	var items []*c20Item
 	for _, s := range steps {
@@ -197,6 +201,7 @@ func (r *c20Run) execGroup(steps []c20Step) bool {
 			step: s, msg: s.msg, parsed: parsed,
 			peer: r.peerFor(s.peer),
 		}
+		it.behindCA = len(items) > 0
 		it.p = r.ctx.send(r.cctx, parsed, it.peer)
 		items = append(items, it)
 	}
@@ -327,6 +332,19 @@ func (r *c20Run) evalCA(it *c20Item, rest []*c20Item, changed,
 			"error: %v", it.err)
 	}
 	explained[tok] = true
+	// A real graph stores the two endpoints as shell nodes if it did not
+	// know them yet.
+	for _, pub := range c.nodePub {
+		if _, had := r.before.nodes[route.Vertex(pub)]; !had {
+			ntok := fmt.Sprintf("node:%x", pub)
+			if changed[ntok] && !explained[ntok] {
+				n, _ := r.ctx.graph.node(route.Vertex(pub))
+				if len(n.AuthSigBytes) == 0 {
+					explained[ntok] = true
+				}
+			}
+		}
+	}
 	r.verifyInfo(it, c, all)
 	r.chans[scid] = c
 	r.mayCast[m.key] = true
@@ -643,6 +661,22 @@ func (r *c20Run) evalNA(it *c20Item, changed, explained map[string]bool,
 		r.label("na_no_known_channel")
 		return
 	}
+	if it.behindCA {
+		// Did the node have a channel before this group? If not, only
+		// the validation barrier makes the announcement wait for the
+		// channel announcement sent right before it.
+		hadChan := false
+		for id, c := range r.chans {
+			if _, was := r.before.infos[id]; was &&
+				(c.nodePub[0] == m.node || c.nodePub[1] == m.node) {
+
+				hadChan = true
+			}
+		}
+		if !hadChan {
+			r.label("na_pipelined_behind_its_first_channel")
+		}
+	}
 	if !changed[tok] {
 		r.fail(all, "authentic, strictly newer node announcement of a "+
 			"node with a known channel was not applied (err=%v)",
@@ -746,9 +780,15 @@ func (r *c20Run) finish() bool {
 			}
 		}
 	}
-	if len(snap.nodes) != len(r.nodes) {
-		r.t.Fatalf("C20: graph has %d nodes, model %d", len(snap.nodes),
-			len(r.nodes))
+	announced := 0
+	for _, v := range snap.nodes {
+		if v != c20ShellNode {
+			announced++
+		}
+	}
+	if announced != len(r.nodes) {
+		r.t.Fatalf("C20: graph has %d announced nodes, model %d",
+			announced, len(r.nodes))
 	}
 
 	return true
